@@ -87,6 +87,9 @@ def make_evaluator(ctx, orient_val):
                         if not var_write_nodes(ctx, fn, [idx[1]]):
                             idx = canon(children(d)[-1])
                 # the index must designate the pin (netLimits_[net] + i) resp. the cell
+                if name.startswith("pin") and idx[0] == "call":
+                    from .common import inline_getters
+                    idx = inline_getters(ctx, idx, with_params=True)      # a private accessor `pinIndex(net, i)`
                 if name.startswith("pin"):
                     ok = idx[0] == "bin" and idx[1] == "+" and idx[2][0] == "index" and idx[2][1][1].endswith("netLimits_")
                 else:
@@ -115,6 +118,11 @@ def run(ctx, rep, tier):
     rep.rule("SN", "running minima / maxima start on the neutral side and 'nothing seen' is tested as min > max", 6)
     rep.rule("LA", "per-net accumulators (pin extremes, pin lists) are reset for every net", 8)
     rep.rule("NF", "the model builders drop a net only for having fewer than two pins", 1)
+    rep.rule("BK", "the cell -> nets index of the incremental model is counted and filled over the same pins", 1)
+    from .common import check_two_pass_buckets
+    _fin = [f_ for f_ in ctx.prog.funcs.values() if f_.cls == CQ + "IncrNetModel" and f_.body is not None]
+    if not _fin or check_two_pass_buckets(ctx, rep, "BK", _fin) == 0:
+        rep.unknown("BK", None, None, "IncrNetModel::finalize", "count pass / fill pass of the cell -> nets index not found (shape changed)")
     rep.rule("QF", "net-model builders read placed (orientation-aware) geometry only", 4)
 
     # ---- T3 -------------------------------------------------------------------
@@ -408,7 +416,50 @@ def check_r5(ctx, rep):
     g = cfg_of(f)
     loops = [for_loop_info(x) for x in walk(f.body) if x.get("kind") == "ForStmt"]
     loops = [l for l in loops if l and l["hi"] and l["hi"][0] == "call" and l["hi"][1] == CQ + "IncrNetModel::nbCellPins"]
+    rec_calls = [x for x in walk(f.body) if x.get("kind") == "CXXMemberCallExpr" and callee_info(x)["qname"] == CQ + "IncrNetModel::recomputeNet"]
+    glob = None
     if not loops:
+        # the pins of the cell addressed by their global index: for (p = cellLimits_[cell]; p < cellLimits_[cell + 1]; ++p) recomputeNet(cellNets_[p])
+        lim = ("field", CQ + "IncrNetModel::cellLimits_", ("this",))
+        for x in walk(f.body):
+            li = for_loop_info(x) if x.get("kind") == "ForStmt" else None
+            if not li or li["step"] != 1 or li["hi"] is None or li["lo"] is None:
+                continue
+            lo_, hi_ = expand_locals(ctx, f, li["lo"]), expand_locals(ctx, f, li["hi"])
+            if lo_ == ("index", lim, cv) and hi_ == ("index", lim, ("bin", "+", cv, ("lit", "1"))):
+                incn = g.node_for(li["inc"])
+                calls = [c for c in walk(li["body"]) if c in rec_calls]
+                good = [c for c in calls if expand_locals(ctx, f, canon(callee_info(c)["args"][0])) ==
+                        ("index", ("field", CQ + "IncrNetModel::cellNets_", ("this",)), li["var"]) and g.node_for(c) is not None and incn is not None
+                        and g.dominates(g.node_for(c), incn)]
+                if good and loop_has_early_exit(li["body"]) is None:
+                    glob = li
+    if glob is None and not loops:
+        # std::for_each(cellNets_.begin() + cellLimits_[cell], cellNets_.begin() + cellLimits_[cell + 1], [this](int net) { recomputeNet(net); })
+        lim = ("field", CQ + "IncrNetModel::cellLimits_", ("this",))
+        nets = ("field", CQ + "IncrNetModel::cellNets_", ("this",))
+        for x in walk(f.body):
+            if x.get("kind") != "CallExpr" or not callee_info(x) or callee_info(x)["name"] != "for_each" or len(callee_info(x)["args"]) != 3:
+                continue
+            a0, a1 = [expand_locals(ctx, f, canon(t)) for t in callee_info(x)["args"][:2]]
+
+            def slice_end(c_, idx):
+                return c_[0] in ("bin", "op") and c_[1] in ("+", "operator+") and len(c_) == 4 and c_[2][0] == "call" and c_[2][1] in ("begin", "cbegin") and \
+                    c_[2][2:] == (nets,) and c_[3] == ("index", lim, idx)
+            lam = [y for y in walk(callee_info(x)["args"][2]) if y.get("kind") == "LambdaExpr"]
+            if slice_end(a0, cv) and slice_end(a1, ("bin", "+", cv, ("lit", "1"))) and len(lam) == 1:
+                lf = [h for h in f.lambdas if h.decl is lam[0] or h.body is not None and any(z is h.body for z in walk(lam[0]))]
+                if lf and lf[0].params:
+                    pv = ("var", lf[0].params[0].get("id"), lf[0].params[0].get("name"))
+                    calls = [c for c in walk(lf[0].body) if c in rec_calls]
+                    if len(calls) == 1 and canon(callee_info(calls[0])["args"][0]) == pv and loop_has_early_exit(lf[0].body) is None and \
+                            not any(z.get("kind") in ("IfStmt", "ConditionalOperator") for z in walk(lf[0].body)):
+                        glob = {"stmt": x}
+    if glob is not None:
+        rep.holds("R5", glob["stmt"], f, "every net cellNets_[p], p in cellLimits_[cell] .. cellLimits_[cell + 1], is recomputed (no skip)")
+    elif not loops and rec_calls:
+        rep.unknown("R5", f.decl, f, "loop over the pins of the moved cell", "recomputeNet is called, but the loop around it is not one of the recognised full ranges")
+    elif not loops:
         rep.violation("R5", f.decl, f, "no loop over the pins of the moved cell", "nets of the cell are not recomputed",
                       key="IncrNetModel::updateCellPos|no pin loop")
     else:
@@ -458,22 +509,60 @@ def check_r5(ctx, rep):
                       "bound stores: %d, value increments: %d" % (len(store), len(inc)), key="IncrNetModel::recomputeNet|bound/value not both updated")
         return
     cond = [x for x in store + inc if gr.dom_edges(gr.node_for(x))]
-    if cond:
-        rep.violation("R5", cond[0], r, "bound or value updated conditionally", "both must be updated on every call",
-                      key="IncrNetModel::recomputeNet|conditional update")
-    else:
+    new_c = ("call", CQ + "IncrNetModel::computeNetMinMaxPos", ("this",), nv)
+    old_c = ("index", ("field", CQ + "IncrNetModel::netMinMaxPos_", ("this",)), nv)
+
+    def gset(x):
+        return sorted((pretty(expand_locals(ctx, r, canon(a_))), v_) for a_, v_, _e in gr.dom_edges(gr.node_for(x)) if isinstance(v_, bool))
+
+    def nothing_changes(x):
+        """every dominating condition says `the new bounds differ from the stored ones` (the update is skipped only when it would be a no-op)"""
+        ok_ = True
+        for a_, v_, _e in gr.dom_edges(gr.node_for(x)):
+            c_ = expand_locals(ctx, r, canon(a_))
+            eq = c_[0] in ("bin", "op") and c_[1] in ("==", "operator==", "!=", "operator!=") and {c_[2], c_[3]} == {new_c, old_c}
+            differs = eq and ((c_[1] in ("==", "operator==")) is (v_ is False))
+            ok_ = ok_ and differs
+        return ok_
+    if not cond:
         rep.holds("R5", store[0], r, "netMinMaxPos_[net] and value_ are both updated unconditionally")
+    elif gset(store[0]) == gset(inc[0]) and all(nothing_changes(x) for x in (store[0], inc[0])):
+        rep.holds("R5", store[0], r, "netMinMaxPos_[net] and value_ are updated together, skipped only when the new bounds equal the stored ones")
+    elif gset(store[0]) == gset(inc[0]):
+        rep.unknown("R5", cond[0], r, "bound and value updated together under %s" % [g_[0][:40] for g_ in gset(store[0])], "the skip condition is not recognised as `nothing changes`")
+    else:
+        rep.violation("R5", cond[0], r, "bound or value updated conditionally", "the two are updated under different conditions: on some call one changes "
+                      "without the other", key="IncrNetModel::recomputeNet|conditional update")
     # value_ += (new.second - new.first) - (old.second - old.first)
     from .common import inline_getters
-    rhs = inline_getters(ctx, expand_locals(ctx, r, canon(children(inc[0])[1])))
+    rhs = inline_getters(ctx, expand_locals(ctx, r, canon(children(inc[0])[1])), with_params=True)
     new = ("call", CQ + "IncrNetModel::computeNetMinMaxPos", ("this",), nv)
     old = ("index", ("field", CQ + "IncrNetModel::netMinMaxPos_", ("this",)), nv)
     hi, lo = _bound_fields(ctx, prog)
     def ext(p):
         return ("bin", "-", ("field", hi, p), ("field", lo, p))
+    # structured bindings of a (min, max) pair are its two members: `auto [newMin, newMax] = computeNetMinMaxPos(net);`
+    from .common import binding_source
+
+    def unbind(c_):
+        if isinstance(c_, tuple):
+            if c_ and c_[0] == "var":
+                bs = binding_source(r, c_[1])
+                if bs is not None and bs[1] in (0, 1) and hi is not None:
+                    src = bs[0]
+                    while src[0] == "construct" and len(src) == 3:
+                        src = src[2]
+                    return ("field", lo if bs[1] == 0 else hi, src)
+                return c_
+            return tuple(unbind(t) for t in c_)
+        return c_
+    rhs = unbind(rhs)
+    while rhs[0] == "cast" and len(rhs) >= 3:
+        rhs = rhs[-1]
     if hi is not None and rhs == ("bin", "-", ext(new), ext(old)):
         # the old bound must be read before it is overwritten
-        olds = [x for x in walk(r.body) if x.get("kind") == "VarDecl" and children(x) and canon(children(x)[-1]) == old]
+        olds = [x for x in walk(r.body) if x.get("kind") in ("VarDecl", "DecompositionDecl") and children(x) and
+                [c_ for c_ in [canon(y) for y in children(x) if y.get("kind") != "BindingDecl"] if c_ == old or (c_[0] == "construct" and c_[-1] == old)]]
         sn = gr.node_for(store[0])
         if olds and gr.dominates(gr.node_for(olds[0]), sn) and gr.node_for(olds[0]) is not sn:
             rep.holds("R5", inc[0], r, "value_ += (new extent) - (old extent), old bound read before the store")
